@@ -213,9 +213,9 @@ func (m *Mutex) Unlock() {
 	if !m.held {
 		panic("sync: unlock of unlocked mutex")
 	}
+	syncPoint(t) // still holding the lock: what the critical section wrote is attributed to it
 	m.held = false
 	t.LocksHeld--
-	syncPoint(t)
 }
 
 type RWMutex struct {
@@ -245,9 +245,9 @@ func (m *RWMutex) Unlock() {
 		m.real.Unlock()
 		return
 	}
+	syncPoint(t)
 	m.writer = false
 	t.LocksHeld--
-	syncPoint(t)
 }
 
 func (m *RWMutex) RLock() {
